@@ -482,6 +482,9 @@ func verifModelBinaryWrite(w io.Writer, order binary.ByteOrder, data any) error 
 //@ loop 4 invariant 0 <= i && (forall j int :: 0 <= j && j < i ==> len(vals[j]) == 0 && len(typs[j]) == 0 && len(poss[j]) == 0) [C05]
 //@ assert (*SegmentBase).visitStoredFields#1 : forall j int :: 0 <= j && j < len(fieldsInv) ==> len(vals[j]) == 0 && len(typs[j]) == 0 && len(poss[j]) == 0 [C05]
 //@ modifies *, ghost chanClosed[closeCh], ghost poolBalance, ghost poolOwned
+// every survivor that is re-encoded gets a snappy block - an empty one when it stores nothing besides its _id: the
+// reader decodes the block unconditionally
+//@ assert (*CountHashWriter).Write#3 : len($b) >= 1 [C05,C09]
 //@ end
 
 // closing an in-memory segment releases its caches (whatever the build: without vectors the vector cache is nil)
@@ -556,6 +559,15 @@ func verifModelBinaryWrite(w io.Writer, order binary.ByteOrder, data any) error 
 //@ ensures typeis(r, ptr_interim) ==> allzero(ptr_interim(payload(r)))
 //@ ensures typeis(r, ptr_visitDocumentCtx) ==> allzero(ptr_visitDocumentCtx(payload(r)))
 //@ ensures typeis(r, ptr_interim) || typeis(r, ptr_visitDocumentCtx)
+//@ end
+
+// the exclusion test of the inverted section asks EVERY registered check: a field is kept for the inverted index only
+// when no section claims it (the scan of the checks is left early only with "excluded")
+//@ func init$3 returns (r)
+//@ thin
+//@ tags [C12]
+//@ loop 1 early r [C12]
+//@ loop 1 nobreak [C12]
 //@ end
 
 // ---- C07 / C08 / C11: postings list reuse, counts, shared sentinels ----
@@ -944,6 +956,8 @@ func lemma1HitDiscriminator(docNum, normBits uint64) {
 //@ ensures err == nil && i.normBits1Hit == 0 && old(i.freqNormReader.r.C) < len(i.freqNormReader.r.S) ==> freq == old(fnRecWord(i)) >> 1 && hasLocs == (old(fnRecWord(i)) & 1 != 0) [C01,C07,C09]
 //@ ensures err == nil && i.normBits1Hit == 0 && old(i.freqNormReader.r.C) < len(i.freqNormReader.r.S) && old(fnRecWord(i)) >> 1 == 0 ==> normBits == 0 && i.freqNormReader.r.C == old(i.freqNormReader.r.C) + old(fnRecLen1(i)) [C01,C07,C09]
 //@ ensures err == nil && i.normBits1Hit == 0 && old(i.freqNormReader.r.C) + old(fnRecLen1(i)) < len(i.freqNormReader.r.S) && old(fnRecWord(i)) >> 1 != 0 ==> normBits == uvVal(row(i.freqNormReader.r.S), off(i.freqNormReader.r.S) + old(i.freqNormReader.r.C) + old(fnRecLen1(i))) && i.freqNormReader.r.C == old(i.freqNormReader.r.C) + old(fnRecLen1(i)) + uvLen(row(i.freqNormReader.r.S), off(i.freqNormReader.r.S) + old(i.freqNormReader.r.C) + old(fnRecLen1(i))) [C01,C07,C09]
+// a single-hit list answers with its own stored norm bits, frequency 1 and no locations
+//@ ensures i.normBits1Hit != 0 ==> err == nil && freq == 1 && normBits == i.normBits1Hit && !hasLocs [C01,C07]
 //@ ensures i.freqNormReader == old(i.freqNormReader) && (i.normBits1Hit == 0 ==> i.freqNormReader.r == old(i.freqNormReader.r) && i.freqNormReader.r.S == old(i.freqNormReader.r.S))
 //@ ghostset recsRead[i] = ite(i.normBits1Hit == 0 && err == nil, old(recsRead(i)) + 1, old(recsRead(i)))
 //@ modifies memUvarintReader.C[i.freqNormReader.r] if i.freqNormReader != nil, alloc, elems(any), ghost recsRead[i]
@@ -1159,7 +1173,7 @@ func lemma1HitDiscriminator(docNum, normBits uint64) {
 //@ assert (*vellum.Builder).Reset#1 : typeis($w, ptr_bytes_DOT_Buffer) && len(ptr_bytes_DOT_Buffer(payload($w)).buf) == 0 && ptr_bytes_DOT_Buffer(payload($w)).off == 0 [C06,C08,C09]
 // an input whose dictionary for the field is empty (its iterator reports exhaustion at once) does not abort the merge
 //@ tolerates vellum.ErrIteratorDone as err from (*vellum.FST).Iterator [C05,C06]
-//@ assert (*Dictionary).postingsListFromOffset#2 : $d == dicts[itrI] && $except == drops[itrI] && $postingsOffset == postingsOffset [C06,C08]
+//@ assert (*Dictionary).postingsListFromOffset#2 : $d == dicts[itrI] && $except == drops[itrI] && $postingsOffset == postingsOffset [C05,C06,C08]
 // the doc-value merge walks a private clone of each input's reader, never the reader stored in the segment (which
 // concurrent merges and searches of the same segment share)
 //@ assert (*docValueReader).iterateAllDocValues#1 : $di != dvIter [C06,C11]
@@ -1292,6 +1306,8 @@ func lemmaOneWrite(v uint64, u uint32, body []byte) {
 //@ thin
 //@ tags [C04]
 //@ local ensures err == nil ==> sb != nil
+// an in-memory segment gets the same (usable) thesaurus cache an opened one gets: a cache with its table made
+//@ assert (*SegmentBase).updateSize#1 : $sb.synIndexCache != nil && $sb.synIndexCache.cache != nil [C04,C12]
 //@ assert (*SegmentBase).updateSize#1 : $sb.numDocs == numDocs && $sb.chunkMode == chunkMode && $sb.memCRC == memCRC && $sb.storedIndexOffset == storedIndexOffset && $sb.sectionsIndexOffset == sectionsIndexOffset && $sb.fieldsIndexOffset == sectionsIndexOffset && $sb.docValueOffset == 0 && $sb.mem == mem
 //@ end
 
@@ -1840,6 +1856,8 @@ func lemmaUvLenRange(a []byte, o int) {}
 // file - the window handed to the decoder is clipped to the end of the file when fewer than 10 bytes remain
 //@ wf requires s.sectionsIndexOffset <= 0x3fffffffffffff00 && int(s.sectionsIndexOffset) <= len(s.mem) && uvLen(row(s.mem), off(s.mem) + int(s.sectionsIndexOffset)) <= len(s.mem) - int(s.sectionsIndexOffset)
 //@ propagates err from (*SegmentBase).loadFieldNew [C04]
+// the window the field count is decoded from ends inside the segment's bytes (not in whatever capacity lies behind them)
+//@ assert encoding/binary.Uvarint#1 : off($buf) + len($buf) <= off(s.mem) + len(s.mem) [C02,C04,C09]
 //@ end
 
 // ---- C03 / C09: a field's doc-value block and its reader ----
@@ -1944,6 +1962,13 @@ func lemmaUvLenRange(a []byte, o int) {}
 //@ assert encoding/binary.PutUvarint#3 : int($x) == len(term) [C09,C12,C13]
 //@ assert (*CountHashWriter).Write#4 : len($b) == len(term) [C09,C12,C13]
 //@ propagates err from (*CountHashWriter).Write [C17]
+// every entry of the table is written - the empty synonym too (the count written up front covers it) - and the entry
+// loop is left early only with an error
+//@ loop 1 nobreak [C09,C12,C13]
+//@ loop 1 early err != nil [C09,C12,C13]
+//@ loop 1 step 0 <= prev(w.n) && prev(w.n) <= 0x0fffffffffffffff && len(term) <= 0x0fffffffffffffff ==> w.n >= prev(w.n) + 2 + len(term) [C09,C12,C13]
+// a thesaurus without any synonym writes no table at all (the loader takes a count of 0 for a damaged file)
+//@ ensures len(synTermMap) == 0 ==> err == nil && w.n == old(w.n) [C12,C13]
 //@ end
 
 // ---- C08 / C12: public entry points hand their arguments through unchanged ----
@@ -2169,6 +2194,9 @@ func lemmaSynonymCodeRoundTrip(synonymID, docID uint32) {
 //@ ensures err == nil ==> r != nil && r != emptySynonymsList [C12]
 //@ ensures err == nil ==> r.synonyms != nil [C12]
 //@ ensures err == nil ==> r.except == except [C12,C13]
+// the list answers for THIS thesaurus: its segment and its id-to-term table, whatever a recycled list held before
+// (two inputs of a merge can keep their lists at the same file offset)
+//@ ensures err == nil ==> r.sb == t.sb && r.synIDTermMap == t.synIDTermMap [C12,C13]
 //@ end
 
 //@ func (*SynonymsList).iterator returns (it)
